@@ -245,6 +245,8 @@ func MustStateful(rules Rules) *StatefulDefinition {
 func New(rules Rules) (*StatefulDefinition, error) {
 	compiled := compiledRules{}
 	for key, set := range rules {
+		// A state without rules is still a state (a push to it is valid): keep it, so that it also survives marshalling.
+		compiled[key] = make([]compiledRule, 0, len(set))
 		for i, rule := range set {
 			if validate, ok := rule.Action.(validatingRule); ok {
 				if err := validate.validate(rules); err != nil {
@@ -316,6 +318,7 @@ func (d *StatefulDefinition) MarshalJSON() ([]byte, error) {
 func (d *StatefulDefinition) Rules() Rules {
 	out := Rules{}
 	for state, rules := range d.rules {
+		out[state] = make([]Rule, 0, len(rules))
 		for _, rule := range rules {
 			out[state] = append(out[state], rule.Rule)
 		}
